@@ -149,7 +149,7 @@ func TestProp(t *testing.T) {
 				if len(env.Structs) > 0 && rapid.Bool().Draw(rt, "self-printing") {
 					selfPrinting = env.Structs[rapid.IntRange(0, len(env.Structs)-1).Draw(rt, "self-printing-struct")]
 					st := progen.NamedT(selfPrinting)
-					out = append(out, progen.PtrTo(st), e2.Carrier(env, "WG", st, progen.B("int"), progen.PtrTo(st)), progen.SliceOf(st))
+					out = append(out, progen.PtrTo(st), e2.Carrier(env, "WSelf", st, progen.B("int"), progen.PtrTo(st)), progen.SliceOf(st))
 				}
 				return out
 			},
